@@ -60,6 +60,12 @@ var dispBodies = []string{
 	"",
 	// 9 account JSON (truthsocial lookup) / reddit post API shape
 	`{"id":"107","username":"u","data":{"children":[{"data":{"permalink":"/r/x/comments/1/"}}]},"media_attachments":[{"external_video_id":"v1"}],"resourceUrl":"http://i.example/r.mp4","uri":"http://i.example/u"}`,
+	// 10 reddit listing whose counter claims children it does not carry
+	`{"kind":"Listing","data":{"dist":1,"children":[]}}`,
+	// 11 the same with children null / absent and a counter
+	`{"kind":"Listing","data":{"dist":3,"modhash":"","children":null}}`,
+	// 12 reddit listing with a child but dist 0
+	`{"kind":"Listing","data":{"dist":0,"children":[{"kind":"t3","data":{"permalink":"/r/x/comments/2/t/","url":"http://i.example/p.png"}}]}}`,
 }
 
 var dispCTs = []string{"", "text/html; charset=utf-8", "application/json", "application/xml", "text/xml", "application/vnd.apple.mpegurl",
@@ -106,7 +112,11 @@ func genDispatch(r *Rng, i int, tier string) string {
 	kind := r.Intn(len(dispBodies))
 	ct := r.Intn(len(dispCTs))
 	if r.Chance(50) { // consistent Content-Type
-		ct = []int{1, 2, 3, 4, 5, 3, 7, 9, 0, 2}[kind]
+		ct = []int{1, 2, 3, 4, 5, 3, 7, 9, 0, 2, 2, 2, 2}[kind]
+	}
+	urlIdx := r.Intn(len(dispURLs))
+	if kind >= 9 && r.Chance(60) { // API answers mostly on the URLs that route to the site-specific arms
+		urlIdx = []int{8, 8, 4, 5, 7}[r.Intn(5)]
 	}
 	chain := ""
 	for d := r.Intn(4); d > 0; d-- {
@@ -117,7 +127,7 @@ func genDispatch(r *Rng, i int, tier string) string {
 		}
 	}
 	return fmt.Sprintf("st=%d resp=%d code=%d body=%d mime=%d parsed=%d chain=%s red=%d hops=%d maxred=%d maxhops=%d noassets=%d dc=%d kind=%d ct=%d srv=%d url=%d",
-		st, hasResp, resp, present(75), mime, parsed, "s"+chain, r.Intn(4), r.Intn(3), r.Intn(4), r.Intn(3), present(20), present(25), kind, ct, r.Intn(len(dispServers)), r.Intn(len(dispURLs)))
+		st, hasResp, resp, present(75), mime, parsed, "s"+chain, r.Intn(4), r.Intn(3), r.Intn(4), r.Intn(3), present(20), present(25), kind, ct, r.Intn(len(dispServers)), urlIdx)
 }
 
 type dispSpec struct {
